@@ -170,7 +170,22 @@ inductive LoopR (ρ σ : Type) where
   | done (s : σ)
 
 /-- Fuel given to every `loop`/`while` lifted by the translator. -/
-def loopFuel : Nat := 100000
+def loopFuel : Nat := 20000
+
+/-- Integer sentinel standing for a Rust panic in an integer-valued position (the driver prints
+    `panic` for any integer of this magnitude; no `u64/i64` computation reaches it otherwise). -/
+def panicInt : Int := -(2 ^ 200)
+instance (priority := high) instInhabitedIntPanic : Inhabited Int := ⟨panicInt⟩
+
+/-- Rust's checked unsigned subtraction (`attempt to subtract with overflow` in the profile the
+    test-suite and the harness use). -/
+@[inline] def usub (a b : Int) : Int := if a < b then panicInt else a - b
+/-- unsigned `/` and `%`: panic on a zero divisor -/
+@[inline] def udiv (a b : Int) : Int := if b = 0 then panicInt else a / b
+@[inline] def umod (a b : Int) : Int := if b = 0 then panicInt else a % b
+/-- signed `/` and `%` (truncating) -/
+@[inline] def sdiv (a b : Int) : Int := if b = 0 then panicInt else Int.tdiv a b
+@[inline] def smod (a b : Int) : Int := if b = 0 then panicInt else Int.tmod a b
 
 /-- value standing for a Rust panic in value position (see `unwrapO`) -/
 @[inline] def panicV {β : Type} [Inhabited β] : β := default
